@@ -188,9 +188,13 @@ export const ATOMS = [
   ['NonNullable<string | null>', ['String'], ['"nn"']], ['Exclude<string | number, number>', ['String', 'Number'], ['"ex"']], ['Extract<string | number, number>', ['Number'], ['7']], ['OmitThisParameter<(this: Date) => void>', ['Function'], ['(() => {})']],
 ];
 
+/** an atom as a tree node; function/constructor types are parenthesised so they can sit in unions */
+export function atomNode([src, ctors, inh]) {
+  return { src: /=>/.test(src) && !/^[A-Z]\w*</.test(src) ? `(${src})` : src, ctors: ctors === 'ANY' ? ['ANY'] : ctors.slice(), inhabitants: inh.map((js) => ({ js, atom: src })), ops: ['atom:' + src] };
+}
 /** type expression tree over the atom table; returns { src, ctors (ordered list incl. null / 'ANY'), inhabitants, ops } */
 export function randomTypeExpr(rng, depth, out) {
-  const pickAtom = () => { const [src, ctors, inh] = rng.pick(ATOMS); return { src, ctors: ctors === 'ANY' ? ['ANY'] : ctors.slice(), inhabitants: inh.slice(), ops: ['atom:' + src] }; };
+  const pickAtom = () => atomNode(rng.pick(ATOMS));
   if (depth === 0) return pickAtom();
   const op = rng.pick(['atom', 'union', 'union', 'alias', 'paren', 'tupleIndex', 'arrayIndex', 'propIndex', 'nonNullable', 'aliasOfUnion', 'interfaceIndex', 'tupleNumberIndex']);
   const decl = (t) => out.decls.push({ text: t });
@@ -207,7 +211,7 @@ export function randomTypeExpr(rng, depth, out) {
     case 'arrayIndex': { const a = sub(); return { ...a, src: `(${a.src})[][number]`, ops: ['arrayIndex', ...a.ops] }; }
     case 'propIndex': { const a = sub(), b = sub(); return { ...a, src: `{ k: ${a.src}; j: ${b.src} }["k"]`, ops: ['propIndex', ...a.ops] }; }
     case 'interfaceIndex': { const a = sub(), b = sub(); const n = fresh('X'); decl(`interface ${n} { k: ${a.src}; 'j-j': ${b.src}; m(): void }`); const which = rng.pick(['k', 'j-j']); const r = which === 'k' ? a : b; return { ...r, src: `${n}["${which}"]`, ops: ['interfaceIndex', ...r.ops] }; }
-    case 'nonNullable': { const a = sub(); return { src: `NonNullable<${a.src} | null>`, ctors: a.ctors.filter((c) => c !== null), inhabitants: a.inhabitants.filter((x) => x !== 'null'), ops: ['nonNullable', ...a.ops] }; }
+    case 'nonNullable': { const a = sub(); return { src: `NonNullable<${a.src} | null>`, ctors: a.ctors.filter((c) => c !== null), inhabitants: a.inhabitants.filter((x) => x.js !== 'null'), ops: ['nonNullable', ...a.ops] }; }
     default: throw new Error(op);
   }
 }
